@@ -113,6 +113,36 @@ Example C17_example :
     = [Pulled 0; Emitted 0; Pulled 1; Emitted 1; Pulled 2; Emitted 2; Ended].
 Proof. split; [intros c e; split; reflexivity|split; reflexivity]. Qed.
 
+(* Streams in which some events abort: the execution of an event may be cut
+   short by a non-field exception (a value its scalar cannot serialise, an
+   unexpected resolver exception) AFTER it registered field errors; then no
+   result is built, the exception leaves __anext__, the errors stay in the
+   shared list, and a consumer that keeps reading gets the following events.
+   [run] returns [None] as data for such an event together with the errors
+   registered before the abort.  Because the list is cleared when the next
+   event STARTS, every later result is still exactly that of its own event
+   alone: what a reading consumer observes is, event by event, the fresh
+   execution's result or its exception.  (Example
+   clear_at_end_leaks_after_abort in Proofs/SubscribeProofs.v: clearing in
+   the completion callback instead leaks.) *)
+Theorem C17_isolation_with_aborts :
+  forall (cache event tree err : Type)
+         (run : cache -> event -> cache * option tree * list err)
+         (c_fresh : cache) (cache_inv : cache -> Prop),
+    (forall c e, cache_inv c -> cache_inv (fst (fst (run c e)))) ->
+    (forall c e, cache_inv c ->
+       snd (fst (run c e)) = snd (fst (run c_fresh e)) /\ snd (run c e) = snd (run c_fresh e)) ->
+    forall s : sub_state cache event err,
+      cache_inv (es_cache (ss_exec s)) ->
+      map (observe err) (snd (drain cache event (option tree) err run s)) =
+      map (fun e => observe err (spec_result cache event (option tree) err run c_fresh e)) (ss_source s) /\
+      forall k e d es,
+        nth_error (ss_source s) k = Some e ->
+        spec_result cache event (option tree) err run c_fresh e = (Some d, es) ->
+        nth_error (snd (drain cache event (option tree) err run s)) k = Some (Some d, es).
+Proof. exact isolation_with_aborts. Qed.
+Print Assumptions C17_isolation_with_aborts.
+
 (* ------------------------------------------------------------------------
    Composition with the C04 cached executor (Exec/ExecCache.v, read-only).
    [run] is no longer abstract: it is [run_c] = exec_sel_c (the executor with
@@ -126,7 +156,10 @@ Proof. split; [intros c e; split; reflexivity|split; reflexivity]. Qed.
    [empty_cache].  What remains are C04's own parameters: the two tests of key
    identity of the tables must only answer true on equal keys.  An event whose
    execution lets an exception escape is recorded as that outcome (in the code
-   the exception leaves __anext__). *)
+   the exception leaves __anext__ and the stream goes on); C04's model does not
+   say which errors had been registered before such an abort, so here that
+   event's own error list is empty -- the statement about every OTHER event is
+   unaffected (and C17_isolation_with_aborts covers arbitrary leftovers). *)
 From PyGql Require Import Exec.ExecCache Proofs.ExecCacheProofs Proofs.SubscribeExecProofs.
 
 (* the k-th result -- data and error list -- is exactly the result of
